@@ -221,7 +221,9 @@ PROPS = {
                       "C13_prefer_reject (Z and `use` denote the exact instant, `ignore` the wall clock, `prefer`/`reject` match "
                       "exactly or to the minute). Tie: fixed offsets and random synthetic zones (0-6 transitions, changes from one "
                       "second to more than a day, spacing from seconds to years) served by a provider written in the harness; "
-                      "instants and readings concentrated on transitions; getters, PlainDateTime/PlainDate -> ZonedDateTime, "
+                      "instants and readings concentrated on transitions; getters, PlainDateTime/PlainDate -> ZonedDateTime (the date "
+                      "alone and with an explicit time of day, midnight included, on the midnights next to every transition's local "
+                      "images), "
                       "from_partial, from_str with offsets/Z x 4 disambiguations x 4 offset options, RelativeTo::try_from_str (zoned "
                       "strings with offsets/Z, plain strings). The implementation is compared "
                       "both with the as-coded model and with the specification function Spec/Zone.lean (spec_ops).",
@@ -312,14 +314,18 @@ PROPS = {
                       "C19_compiled_callees_distinct (no two accessors share a twin), C19_enums_same_variants, "
                       "C19_fields_same_name, C19_tables_nonempty - all by kernel evaluation of the generated table. Tie (second): "
                       "every convenience method is called next to its *_with_provider twin on a fresh provider (12 zones, instants "
-                      "with distinct sub-second fields near DST changes; all 30 accessors, add/subtract/until/since/with_plain_time/"
+                      "with distinct sub-second fields near DST changes and whole-second receivers; all 30 accessors, "
+                      "add/subtract/until/since - also with a smallest unit under each of the nine rounding modes and increments -/"
+                      "with_plain_time/"
                       "to_ixdtf_string/from_str, Duration round/total/compare relative to a zoned date-time, Instant and "
                       "PlainDateTime conversions, RelativeTo parsing) and a slice of the FFI layer is called from Rust next to the "
                       "core (Instant words, PlainDate in every calendar, PlainTime, Duration).",
         "level_note": "Trusted: Lean kernel (+propext); the translator's reading of a method body as 'the first call on self / "
                       "self.0 / a type path and the identifiers in its arguments' (a wrapper it cannot read fails the theorem); "
-                      "`enum_convert` converting by variant name (diplomat); Now::* read the system clock and are covered by the "
-                      "table only. The differential run compares Debug renderings.",
+                      "`enum_convert` converting by variant name (diplomat); Now::* read the system clock: their rows admit three "
+                      "to five statements, and `w19_now` checks that a wrapper's answer lies between the core's answers for clock "
+                      "readings taken just before and just after it (explicit zone only: the system zone is not reachable from "
+                      "outside the crate). The differential run compares Debug renderings.",
         "why_difference_is_violation":
             "A thin wrapper returns what the wrapped method returns; this wrapper returned something else for the same receiver "
             "and arguments (or the regenerated wrapper table no longer satisfies the thinness theorems).",
@@ -370,7 +376,7 @@ PROPS = {
         "exhaustive_quick": False,
     },
     "C16": {
-        "lean_modules": ["TemporalModel.Props.C16"],
+        "lean_modules": ["TemporalModel.Props.C16", "TemporalModel.Props.C16Hebrew"],
         "suites": ["c16"],
         "spec_ops": {"cal_rt": "cal_rt_spec", "cal_withid": "cal_withid_spec"},
         "feed_ops": {"cal_law": "cal_law_chk"},
@@ -393,12 +399,27 @@ PROPS = {
                       "beyond +-300000 are RangeErrors before the library is asked), C16_with_calendar_keeps_iso. For ALL calendars: "
                       "C16_era_names_accepted (every era name handed to the library is a code that calendar accepts), "
                       "C16_reported_eras_accepted, C16_alias_unambiguous / C16_alias_resolves, C16_identifier_case_insensitive / "
-                      "_lower_idem / _canonical / _roundtrip. Tie: every getter, the consecutive-day pair, the three rebuild routes, "
+                      "_lower_idem / _canonical / _roundtrip. HEBREW (Props/C16Hebrew.lean; the library's molad arithmetic, "
+                      "four gate tables and fourteen keviyot are modelled from its source): C16_hebrew_year_lengths (for EVERY "
+                      "year and every position of the molad in the week, the next new year comes exactly the keviyah's year length "
+                      "later - by the calendar's rules, i.e. with the week count moving on exactly when the keviyah postpones), "
+                      "C16_hebrew_daycount_inverse / _rules_bounds / _rules_consecutive (every day, no range restriction), "
+                      "C16_hebrew_month_codes (M05L / M06 in leap years), C16_hebrew_coded_is_calendar (the code as written equals "
+                      "the rules wherever no molad falls exactly on Saturday 18 h 0 p in the estimated year or its neighbours, and "
+                      "is a week early exactly there), C16_hebrew_fields_bounds_partial / _consecutive_days_partial / "
+                      "_rebuild_partial / _from_partial_partial / _no_assertion_partial (the C16 clauses and the absence of the "
+                      "library's debug-assertion panic for the code as written, under that hypothesis), C16_hebrew_gate_defect "
+                      "(the excluded case is real: Hebrew year 75795 - known finding C16-hebrew-molad-at-gate). "
+                      "Tie: every getter, the consecutive-day pair, the three rebuild routes, "
                       "from_partial on random field subsets and on every (calendar, era alias, era year around each bound) cell, "
                       "PlainDate::with / PlainDateTime::with / PlainYearMonth::with on random field subsets, to_plain_year_month, the "
                       "year-month getters and PlainYearMonth::from_partial, the "
                       "resolved library arguments (hook) and identifier parsing are compared with the model for the modelled "
-                      "calendars; for chinese, dangi, hebrew, islamic, islamic-umalqura, japanext the crate's own resolution "
+                      "calendars and - fields, consecutive days, the three rebuild routes, from_partial on (era / year, month / "
+                      "month code, day) - for hebrew, including every day of the windows around the three defective new years and "
+                      "the days where the library's floating-point year estimate is a whole number; changing the calendar "
+                      "(with_calendar of PlainDate, PlainDateTime, ZonedDateTime, every ordered pair of calendars) keeps the ISO "
+                      "fields / the instant; for chinese, dangi, hebrew, islamic, islamic-umalqura, japanext the crate's own resolution "
                       "is compared exactly, and the fields the implementation reports are handed to the driver, which evaluates "
                       "the same Lean law predicates (FieldsOk, Consecutive) on them; the rebuild law, the with-own-fields identity and "
                       "the first-of-month law of to_plain_year_month are compared with their specification constants for every "
@@ -408,7 +429,9 @@ PROPS = {
                       "month_to_month_code), calendar/era.rs; the calendrical library (icu_calendar 2.0.0-beta2, "
                       "calendrical_calculations 0.1.3) is MODELLED, not verified: its arithmetic calendars, the Japanese era table and "
                       "the era codes date_from_codes accepts (libraryAccepts) were read off its source and are tied by the "
-                      "correspondence run only. Astronomical / table-driven calendars are not modelled: for them the theorems cover "
+                      "correspondence run only (the Hebrew year estimate is modelled with exact rationals where the library uses f64; "
+                      "the correction step makes the result independent of that, and the whole-number days are probed). "
+                      "Astronomical calendars (chinese, dangi, islamic, islamic-umalqura) and japanext's historic eras are not modelled: for them the theorems cover "
                       "the crate's glue, and the laws are evaluated (Lean predicates) on sampled dates, which is a search, not a proof. "
                       "Calendar::from_str on annotated strings is modelled for the date-time form only (the grammar is C12).",
         "why_difference_is_violation":
